@@ -167,7 +167,8 @@ impl<'a> Parser<'a> {
                 }
             }
             if self.at(TokenKind::Eof) {
-                break;
+                // Let the Eof arm above decide: inside a block it is an error
+                continue;
             } else if self.at(TokenKind::Eol) {
                 self.skip();
             } else {
